@@ -470,6 +470,42 @@ def run(ctx) -> None:
         used = {a_.id for c in ast.walk(lp) if isinstance(c, ast.Call) and call_names(db, c, voc_f) & {"_is_pair_ordered", "_is_pair_mutex"} for a_ in c.args if isinstance(a_, ast.Name)}
         bad_c = [v_ for v_ in carried if v_ in used]
         rep.add("C19.R7", f"{voc_f.qname}:no-state-carried-between-names#{lpi}", not bad_c, f"{voc_f.module.rel}:{lp.lineno}", "the pair tests use per-name values and loop-invariant inputs only" if not bad_c else f"{bad_c} is set before the per-name loop and re-bound inside it, and feeds the pair test: what was computed for one shared name is reused for the next — an unordered pair of producers is accepted when an ordered pair of another name precedes it")
+    # 'exclusive' is decided on the edges of every producer: the structure graph carries data edges from the first
+    # producer of a shared name only, so on the inferred-edges path branch membership must be computed on a graph built
+    # from the complete edge map (else a consumer fed by a second producer counts as outside that producer's branch)
+    gparam = next((p_ for p_ in voc_f.param_names if "DiGraph" in src(voc_f.param_annotation(p_) or ast.Constant(""))), voc_f.param_names[0])
+    expl = next((p_ for p_ in voc_f.param_names if "explicit" in p_), None)
+    full_maps = {t.id for n in walk_local(voc_f.node) if isinstance(n, ast.Assign) and isinstance(n.value, ast.Call) and "_build_full_edge_map" in call_names(db, n.value, voc_f) for tg in n.targets for t in (tg.elts if isinstance(tg, ast.Tuple) else [tg]) if isinstance(t, ast.Name)}
+    full_graphs = set()
+    for n in walk_local(voc_f.node):
+        if isinstance(n, ast.Call) and isinstance(n.func, ast.Attribute) and n.func.attr in ("add_edges_from", "add_edge") and isinstance(n.func.value, ast.Name) and any(isinstance(x, ast.Name) and x.id in full_maps for a_ in n.args for x in ast.walk(a_)):
+            full_graphs.add(n.func.value.id)
+        if isinstance(n, ast.Assign) and isinstance(n.value, ast.Call) and (dotted(n.value.func) or "").endswith("DiGraph") and any(isinstance(x, ast.Name) and x.id in full_maps for a_ in n.value.args for x in ast.walk(a_)):
+            full_graphs |= {t.id for t in n.targets if isinstance(t, ast.Name)}
+    n_auto = 0
+    for lp in [n for n in walk_local(voc_f.node) if isinstance(n, ast.For) and any(isinstance(c, ast.Call) and "_is_pair_ordered" in call_names(db, c, voc_f) for c in ast.walk(n))]:
+        for c in [c for c in ast.walk(lp) if isinstance(c, ast.Call) and "_is_pair_mutex" in call_names(db, c, voc_f) and len(c.args) >= 3 and isinstance(c.args[2], ast.Name)]:
+            if n_auto:
+                break
+            n_auto += 1
+            gv = c.args[2].id
+            defs = [d for d in db.local_defs(voc_f).get(gv, []) if isinstance(d, ast.Assign) and d.lineno < lp.lineno and not any(isinstance(a, ast.If) and expl and expl in src(a.test) and not src(a.test).startswith("not ") and any(contains(b_, d) for b_ in a.body) for a in ancestors(d))]
+            if not defs:
+                raise AnalysisError("definition of the exclusive-branch groups for the inferred-edges path not found")
+            d = max(defs, key=lambda x: x.lineno)
+            garg = d.value.args[0] if isinstance(d.value, ast.Call) and d.value.args else None
+            okm = isinstance(garg, ast.Name) and garg.id != gparam and garg.id in full_graphs
+            rep.add("C19.R7", f"{voc_f.qname}:branch-membership-over-all-producers", okm, f"{voc_f.module.rel}:{d.lineno}", "exclusive branches are computed on a graph holding the edges of every producer" if okm else f"exclusive branches are computed on '{src(garg) if garg is not None else '?'}', which holds data edges from the first producer of a shared name only: a consumer fed by a later producer is judged exclusive to the first producer's branch, so with ifelse(t1 | t2), t1 -> a, t2 -> (a, u2), shared(a) -> r, other(u2) -> r the graph is accepted (for one node order) although 'shared' and 'other' both run and both write r when t2 is chosen")
+            break
+    if n_auto < 1:
+        raise AnalysisError("inferred-edges pair loop of validate_output_conflicts not found")
+    # 'exclusive to a branch' = reachable from exactly one target of the gate
+    emg = db.func("graph._conflict._expand_mutex_groups")
+    cer = next((cal.func for _, cal in db.callees(emg) if cal.func is not None and cal.func.module is emg.module and any(isinstance(x, ast.Call) and (dotted(x.func) or "").endswith("descendants") for x in ast.walk(cal.func.node))), None)
+    if cer is None:
+        raise AnalysisError("per-target reachability helper of _expand_mutex_groups not found")
+    okx, whyx = _exactly_one_target(db, cer)
+    rep.add("C19.R7", f"{cer.qname}:exclusive-means-exactly-one-target", okx, cer.loc(), whyx)
     if n_pairs < 2:
         raise AnalysisError("pair loops of validate_output_conflicts not found")
 
@@ -588,6 +624,53 @@ def run(ctx) -> None:
             compat_ok = False
     rep.add("C19.R6", f"{vt.qname}:missing-annotation", miss_ok, vt.loc(), "a missing annotation on either side is rejected" if miss_ok else "a missing annotation on the producer or consumer side is not rejected")
     rep.add("C19.R6", f"{vt.qname}:compatibility-call", compat_ok, vt.loc(), "incompatibility (producer output type vs consumer input type, in that order) raises" if compat_ok else "is_type_compatible is not asked (output type of the edge's source, input type of its target) for the edge's value, or its negative result does not raise")
+
+def _exactly_one_target(db, f: FuncInfo) -> tuple[bool, str]:
+    """The per-target sets keep a node only when no other target reaches it. Recognised forms:
+    count over all targets' reachable sets compared with 1, or the difference with the union of the other targets' sets."""
+    from rules.common import _ev, NotComparable
+
+    defs = db.local_defs(f)
+
+    def val(name: str):
+        d = defs.get(name, [])
+        return d[0].value if len(d) == 1 and isinstance(d[0], (ast.Assign, ast.AnnAssign)) else None
+
+    def expand_(e: ast.AST, depth: int = 0) -> str:
+        out = src(e)
+        if depth < 4:
+            for x in ast.walk(e):
+                if isinstance(x, ast.Name) and val(x.id) is not None:
+                    out += " <- " + expand_(val(x.id), depth + 1)
+        return out
+
+    rets = [r for r in walk_local(f.node) if isinstance(r, ast.Return) and r.value is not None]
+    if not rets:
+        return False, "no result returned"
+    for r in rets:
+        text = expand_(r.value)
+        # count form
+        cmps = [c for c in ast.walk(r.value) if isinstance(c, ast.Compare) and len(c.ops) == 1]
+        cnt = [(c, o) for c in cmps for o in (c.left, c.comparators[0]) if isinstance(o, ast.Subscript) and "Counter(" in expand_(o.value)]
+        if cnt:
+            c, o = cnt[0]
+            if ".values()" not in expand_(o.value):
+                return False, f"the count in '{src(c)}' is not taken over the reachable sets of all targets"
+            try:
+                tab = [bool(_ev(c, {src(o): k})) for k in (1, 2, 3)]
+            except NotComparable as e:
+                return False, f"'{src(c)}' is not a plain comparison of the count ({e})"
+            if tab != [True, False, False]:
+                return False, f"'{src(c)}' keeps a node reachable from {[k for k, t in zip((1, 2, 3), tab) if t]} target(s): a node downstream of several (but not exactly one) targets lands in more than one 'exclusive' branch set, so two producers that share a branch are judged mutually exclusive"
+            continue
+        if any(isinstance(x, ast.Call) and (dotted(x.func) or "").endswith("intersection") for x in ast.walk(r.value)) or "intersection(" in text or " & " in text:
+            return False, "only nodes reachable from every target are removed (intersection over all targets): with three or more targets a node downstream of two of them stays in both 'exclusive' branch sets, so a producer sharing a branch with it is judged mutually exclusive — route(fast | slow | skip), quick(fast-only) -> answer, merged(fast, slow) -> answer is accepted"
+        diff = [b for b in ast.walk(r.value) if isinstance(b, ast.BinOp) and isinstance(b.op, ast.Sub)] + [c_ for c_ in ast.walk(r.value) if isinstance(c_, ast.Call) and isinstance(c_.func, ast.Attribute) and c_.func.attr == "difference"]
+        if diff and ("union(" in text or " | " in text) and ("!=" in text or "is not" in text):
+            continue
+        return False, f"'{src(r.value)[:80]}' does not establish that a kept node is reachable from exactly one target"
+    return True, "a node stays in a target's set only when exactly one target reaches it"
+
 
 def _edge_kind_valuation(cfg, loop, kind: str) -> dict[str, bool]:
     """Truth of the tests on the edge's ``edge_type`` inside ``loop`` for an edge of ``kind``."""
